@@ -121,6 +121,29 @@ def apply_flags(case, ctx):
     return case
 
 
+_NUMERAL = re.compile(r'-?\d+(?:\.\d+)?')
+TOLERATED = {'numeral-digits': 0}
+
+
+def same_up_to_numerals(expected, got):
+    """The string of a number: the reference writes the SHORTEST numeral that converts back to the double; C18 (which owns number to string
+    conversion) accepts every numeral in the canonical form that converts back to the same double, and Xalan sometimes writes one more digit
+    (900719925474099.25 for the double whose shortest numeral is 900719925474099.2).  Two strings are taken as equal when they are equal
+    outside their numerals and corresponding numerals denote the same double."""
+    if expected is None or got is None:
+        return False
+    if _NUMERAL.sub('#', expected) != _NUMERAL.sub('#', got):
+        return False
+    a, b = _NUMERAL.findall(expected), _NUMERAL.findall(got)
+    if len(a) != len(b):
+        return False
+    for x, y in zip(a, b):
+        if x != y and (float(x) != float(y) or len(y) > len(x) + 2):
+            return False
+    TOLERATED['numeral-digits'] += 1
+    return True
+
+
 def compare_value(ref, r, pfx='g'):
     """ref: python value; r: driver response.  returns None or (what, expected, got)"""
     t = type_of(ref)
@@ -137,7 +160,7 @@ def compare_value(ref, r, pfx='g'):
             return ('number', repr(ref), repr(g))
     elif t == 'string':
         g = r.gets('g.str')
-        if g != ref:
+        if g != ref and not same_up_to_numerals(ref, g):
             return ('string', ref, g)
     else:
         keys = [k for k in (r.gets('g.nodes') or '').split('\n') if k]
